@@ -18,6 +18,27 @@
 (* numbered likewise.  pfut[n] / fut[i] are the futures returned by the    *)
 (* n-th push / i-th pop.  That makes every ordering property a comparison. *)
 (*                                                                         *)
+(* Item identity.  push(args...) is emplace-style: the item is T(args...).  *)
+(* The n-th push is made through the API form FormOf(n) (one argument,      *)
+(* several arguments, a ready-made item by copy, by move; rotation fixed by *)
+(* the constant FormShift), so the item it contributes is Item(n) =         *)
+(* (arguments derived from n, constructor form).  The sequences below hold  *)
+(* n as shorthand for Item(n); the replay projection expands it, and what   *)
+(* sits in the queue / the blocked queue / a pop future must be exactly     *)
+(* what a direct T(args...) gives, whichever branch the push took.          *)
+(*                                                                         *)
+(* Throwing construction.  PushThrowCS is a push whose item constructor     *)
+(* throws.  The code constructs the item inside the critical section in     *)
+(* the room branch (_queue.emplace, queue.h:288) and in the blocked branch  *)
+(* (T(args...) before _blocked.push, queue.h:285): nothing has been changed *)
+(* yet, the exception leaves push(), no future is returned.  In the         *)
+(* hand-over branch (queue.h:277-280) the parked promise has already been   *)
+(* taken out and claimed when the constructor runs: the code at 5fcdbbb     *)
+(* leaves that pop future pending for ever (candidate defect, reported).    *)
+(* ThrowAtHandover = FALSE keeps such histories out; TRUE models the        *)
+(* repaired behaviour (item built before the waiter is taken: state         *)
+(* unchanged in every branch).                                             *)
+(*                                                                         *)
 (* Fixed = TRUE models the current code; Fixed = FALSE models the code     *)
 (* before commit fca2138 (push emplaced the item and, when the size then   *)
 (* reached the limit, additionally parked a copy of it in _blocked) -- it  *)
@@ -33,7 +54,12 @@ CONSTANTS Producers,       \* threads calling push()
           MaxUnblockPush,  \* bound on the number of unblock_push() calls
           MaxUnblockPop,   \* bound on the number of unblock_pop() calls
           AllowDestroy,    \* TRUE: the queue may be destroyed with parked pops / blocked pushes
-          Fixed            \* TRUE: current code, FALSE: code before fca2138
+          Fixed,           \* TRUE: current code, FALSE: code before fca2138
+          MaxThrow,        \* bound on the number of push() calls whose item constructor throws
+          ThrowAtHandover, \* TRUE: a throwing push may also meet a waiting consumer (repaired code only)
+          FormShift        \* rotation of the API forms over the pushes (0..3)
+
+ASSUME FormShift \in 0..3 /\ MaxThrow \in Nat /\ ThrowAtHandover \in BOOLEAN
 
 VARIABLES limit,     \* _limit (queue.h:348)
           items,     \* _queue: sequence of values
@@ -45,11 +71,17 @@ VARIABLES limit,     \* _limit (queue.h:348)
                      \*   | "exc" (failed by unblock_push) | "canceled" (queue destroyed)
           pc,        \* per thread: "idle" | "push_resolve" | "pop_complete" | "unblock_push_resolve" | "unblock_pop_resolve"
           hold,      \* per thread: what it took out of the queue inside the lock and resolves outside
-          ret,       \* per thread: result of its last call if that was unblock_push()/unblock_pop(), else "none"
+          ret,       \* per thread: result of its last call if that was unblock_push()/unblock_pop() ("true"/"false")
+                     \*   or a push() that threw ("threw"), else "none"
           withdrawn, \* ghost: items removed by unblock_push
-          npush, npop, nunbpush, nunbpop, destroyed
+          npush, npop, nunbpush, nunbpop, nthrow, destroyed
 
-vars == <<limit, items, waiters, blocked, fut, pfut, pc, hold, ret, withdrawn, npush, npop, nunbpush, nunbpop, destroyed>>
+vars == <<limit, items, waiters, blocked, fut, pfut, pc, hold, ret, withdrawn, npush, npop, nunbpush, nunbpop, nthrow, destroyed>>
+
+(* the public forms of push(); "copy"/"move" pass a ready-made item built from two / one argument(s) *)
+Forms == <<"one", "two", "copy", "move">>
+FormOf(n) == Forms[((n + FormShift) % 4) + 1]
+Item(n) == [a |-> n, form |-> FormOf(n)]
 
 Threads == Producers \cup Consumers
 
@@ -64,7 +96,7 @@ Init == /\ limit \in Limits
         /\ hold = [t \in Threads |-> NoHold]
         /\ ret = [t \in Threads |-> "none"]
         /\ withdrawn = {}
-        /\ npush = 0 /\ npop = 0 /\ nunbpush = 0 /\ nunbpop = 0
+        /\ npush = 0 /\ npop = 0 /\ nunbpush = 0 /\ nunbpop = 0 /\ nthrow = 0
         /\ destroyed = FALSE
 
 (* limited_queue::push, queue.h:274-292.
@@ -100,7 +132,19 @@ PushCS(t) ==
                                 ELSE /\ pfut' = Append(pfut, "ready")
                                      /\ UNCHANGED blocked
                  /\ UNCHANGED <<waiters, hold, pc>>
-    /\ UNCHANGED <<limit, fut, withdrawn, npop, nunbpush, nunbpop, destroyed>>
+    /\ UNCHANGED <<limit, fut, withdrawn, npop, nunbpush, nunbpop, nthrow, destroyed>>
+
+(* push() whose item constructor throws.  Room branch: _queue.emplace (queue.h:288) has the strong
+   guarantee; blocked branch: T(args...) is evaluated before _blocked.push and the promise handed to the
+   initialiser dies with the future under construction (queue.h:284-286).  Either way the queue is
+   untouched, the lock is released by the unwinding and the exception reaches the caller; the call
+   consumes no push number.  (Hand-over branch: see the module comment, ThrowAtHandover.) *)
+PushThrowCS(t) ==
+    /\ t \in Producers /\ ~destroyed /\ pc[t] = "idle" /\ nthrow < MaxThrow
+    /\ (waiters = <<>> \/ ThrowAtHandover)
+    /\ nthrow' = nthrow + 1
+    /\ ret' = [ret EXCEPT ![t] = "threw"]
+    /\ UNCHANGED <<limit, items, waiters, blocked, fut, pfut, pc, hold, withdrawn, npush, npop, nunbpush, nunbpop, destroyed>>
 
 (* the promise call `p(args...)` after lk.unlock(), queue.h:279-280 *)
 PushResolve(t) ==
@@ -108,7 +152,7 @@ PushResolve(t) ==
     /\ fut' = [fut EXCEPT ![hold[t].pop] = F("val", hold[t].v)]
     /\ pc' = [pc EXCEPT ![t] = "idle"]
     /\ hold' = [hold EXCEPT ![t] = NoHold]
-    /\ UNCHANGED <<limit, items, waiters, blocked, pfut, ret, withdrawn, npush, npop, nunbpush, nunbpop, destroyed>>
+    /\ UNCHANGED <<limit, items, waiters, blocked, pfut, ret, withdrawn, npush, npop, nunbpush, nunbpop, nthrow, destroyed>>
 
 (* limited_queue::pop, queue.h:298-322: promise parked, or resolved (inside the lock) with the
    oldest item; in the latter case the oldest blocked push -- if any -- is admitted: its item moves
@@ -130,7 +174,7 @@ PopCS(t) ==
                    ELSE /\ items' = Tail(items)
                         /\ UNCHANGED <<blocked, pc, hold>>
               /\ UNCHANGED waiters
-    /\ UNCHANGED <<limit, pfut, withdrawn, npush, nunbpush, nunbpop, destroyed>>
+    /\ UNCHANGED <<limit, pfut, withdrawn, npush, nunbpush, nunbpop, nthrow, destroyed>>
 
 (* `p()` after lk.unlock(), queue.h:315-316 *)
 PopCompletePush(t) ==
@@ -138,7 +182,7 @@ PopCompletePush(t) ==
     /\ pfut' = [pfut EXCEPT ![hold[t].push] = "done"]
     /\ pc' = [pc EXCEPT ![t] = "idle"]
     /\ hold' = [hold EXCEPT ![t] = NoHold]
-    /\ UNCHANGED <<limit, items, waiters, blocked, fut, ret, withdrawn, npush, npop, nunbpush, nunbpop, destroyed>>
+    /\ UNCHANGED <<limit, items, waiters, blocked, fut, ret, withdrawn, npush, npop, nunbpush, nunbpop, nthrow, destroyed>>
 
 (* limited_queue::unblock_push, queue.h:337-344: the oldest (item, promise) pair leaves _blocked;
    the item dies with the local `front`, the promise is failed outside the lock *)
@@ -153,7 +197,7 @@ UnblockPushCS(t) ==
               /\ withdrawn' = withdrawn \cup {Head(blocked).v}
               /\ pc' = [pc EXCEPT ![t] = "unblock_push_resolve"]
               /\ ret' = [ret EXCEPT ![t] = "none"]
-    /\ UNCHANGED <<limit, items, waiters, fut, pfut, npush, npop, nunbpop, destroyed>>
+    /\ UNCHANGED <<limit, items, waiters, fut, pfut, npush, npop, nunbpop, nthrow, destroyed>>
 
 UnblockPushResolve(t) ==
     /\ pc[t] = "unblock_push_resolve"
@@ -161,7 +205,7 @@ UnblockPushResolve(t) ==
     /\ ret' = [ret EXCEPT ![t] = "true"]
     /\ pc' = [pc EXCEPT ![t] = "idle"]
     /\ hold' = [hold EXCEPT ![t] = NoHold]
-    /\ UNCHANGED <<limit, items, waiters, blocked, fut, withdrawn, npush, npop, nunbpush, nunbpop, destroyed>>
+    /\ UNCHANGED <<limit, items, waiters, blocked, fut, withdrawn, npush, npop, nunbpush, nunbpop, nthrow, destroyed>>
 
 (* queue::unblock_pop, queue.h:223-230 (protected base of limited_queue) *)
 UnblockPopCS(t) ==
@@ -174,7 +218,7 @@ UnblockPopCS(t) ==
               /\ waiters' = Tail(waiters)
               /\ pc' = [pc EXCEPT ![t] = "unblock_pop_resolve"]
               /\ ret' = [ret EXCEPT ![t] = "none"]
-    /\ UNCHANGED <<limit, items, blocked, fut, pfut, withdrawn, npush, npop, nunbpush, destroyed>>
+    /\ UNCHANGED <<limit, items, blocked, fut, pfut, withdrawn, npush, npop, nunbpush, nthrow, destroyed>>
 
 UnblockPopResolve(t) ==
     /\ pc[t] = "unblock_pop_resolve"
@@ -182,7 +226,7 @@ UnblockPopResolve(t) ==
     /\ ret' = [ret EXCEPT ![t] = "true"]
     /\ pc' = [pc EXCEPT ![t] = "idle"]
     /\ hold' = [hold EXCEPT ![t] = NoHold]
-    /\ UNCHANGED <<limit, items, waiters, blocked, pfut, withdrawn, npush, npop, nunbpush, nunbpop, destroyed>>
+    /\ UNCHANGED <<limit, items, waiters, blocked, pfut, withdrawn, npush, npop, nunbpush, nunbpop, nthrow, destroyed>>
 
 (* ~limited_queue: _blocked dies first (parked promise<void> dropped => push future resolves to
    no-value), then ~queue drops the parked promise<T> of waiting pops *)
@@ -194,11 +238,11 @@ Destroy ==
     /\ fut' = [i \in 1..Len(fut) |-> IF \E k \in 1..Len(waiters) : waiters[k] = i THEN F("canceled", 0) ELSE fut[i]]
     /\ waiters' = <<>> /\ items' = <<>> /\ blocked' = <<>>
     /\ ret' = [t \in Threads |-> "none"]
-    /\ UNCHANGED <<limit, pc, hold, withdrawn, npush, npop, nunbpush, nunbpop>>
+    /\ UNCHANGED <<limit, pc, hold, withdrawn, npush, npop, nunbpush, nunbpop, nthrow>>
 
 Resolve(t) == PushResolve(t) \/ PopCompletePush(t) \/ UnblockPushResolve(t) \/ UnblockPopResolve(t)
 
-Next == \/ \E t \in Threads : \/ PushCS(t) \/ PushResolve(t)
+Next == \/ \E t \in Threads : \/ PushCS(t) \/ PushResolve(t) \/ PushThrowCS(t)
                               \/ PopCS(t) \/ PopCompletePush(t)
                               \/ UnblockPushCS(t) \/ UnblockPushResolve(t)
                               \/ UnblockPopCS(t) \/ UnblockPopResolve(t)
@@ -247,6 +291,20 @@ PushReadyIffRoom ==
                  /\ blocked' = Append(blocked, B(n, n))
                  /\ items' = items /\ waiters' = waiters
       ]_vars
+
+(* a push that fails because its item cannot be constructed leaves no trace: nothing but the caller's
+   result changes, so room, bound and the whereabouts of every item are what they were *)
+ThrowLeavesNoTrace ==
+    [][nthrow' = nthrow + 1 =>
+          /\ UNCHANGED <<limit, items, waiters, blocked, fut, pfut, pc, hold, withdrawn, npush, npop, nunbpush, nunbpop, destroyed>>
+          /\ \E t \in Threads : ret'[t] = "threw"
+      ]_vars
+
+(* room is a function of the queue alone: no history of failed pushes, unblocks or pops can leave a push
+   blocked while fewer than `limit` items wait (all parties quiet) *)
+NoPhantomBackPressure ==
+    (~destroyed /\ \A t \in Threads : pc[t] = "idle") =>
+        (Cardinality({n \in 1..npush : pfut[n] = "pending"}) > 0 => Len(items) = limit)
 
 (* a pending push is parked together with its own item, exactly once, or it has just been taken out
    by a pop / unblock_push that is about to resolve it; a parked push is pending *)
